@@ -91,7 +91,8 @@ func c06E2EJob(tier string) *SeqJob {
 			if r, ok := allAllowed(c.o.NameCharacters, c.o.ReplacementCharacter, e.Name); !ok {
 				return "unsanitized-name", fmt.Sprintf("[%s] log[%d] %s: name contains %U", c.name, i, e.String(), r), steps
 			}
-			for k, v := range e.Tags {
+			for _, k := range sortedTagKeys(e.Tags) {
+				v := e.Tags[k]
 				if r, ok := allAllowed(c.o.KeyCharacters, c.o.ReplacementCharacter, k); !ok {
 					cl := "unsanitized-tag-key"
 					return cl, fmt.Sprintf("[%s] log[%d] %s: tag key %q contains %U", c.name, i, e.String(), k, r), steps
@@ -230,4 +231,13 @@ func c06RolesJob(tier string) *SeqJob {
 		return c, d
 	}
 	return j
+}
+
+func sortedTagKeys(m map[string]string) []string {
+	ks := make([]string, 0, len(m))
+	for k := range m {
+		ks = append(ks, k)
+	}
+	sortStrings(ks)
+	return ks
 }
